@@ -284,6 +284,8 @@ class Path:
         self.byte_cache = {}
         self.lazy = {}
         self.prog_temps = None
+        self.prog_vals = None  # truth values of the clauses evaluated so far (parallel to prog_temps, concrete ones included)
+        self.die_after = None  # number of obligations still to be stated before this path ends (see Config.clauses)
         self.def_ids = set()
         self.nproves = 0
         self.keep = []  # keeps z3 terms alive so that ids used as cache keys stay unique
@@ -498,6 +500,10 @@ class Path:
             gs = z3.simplify(g)
             if not z3.is_true(gs) and not z3.is_false(gs):
                 self.pc.append(g)
+        if self.die_after is not None:
+            self.die_after -= 1
+            if self.die_after <= 0:
+                raise Infeasible()
 
     # -- heap ---------------------------------------------------------------
     def alloc(self, hobj):
@@ -732,7 +738,9 @@ class Path:
         c = self.truth(self.eval(s.test))
         if self.spec_mode or self.cfg.asserts_are_obligations(self):
             # in ghost/lemma code an assert is a proof obligation
-            self.oblige(self.cfg.obl_name(self, 'assert', f'L{s.lineno}'), 'assert', c)
+            # `assert cond, 'label'` in ghost/lemma code names the obligation (stable across edits of the sidecar)
+            label = s.msg.value if isinstance(s.msg, ast.Constant) and isinstance(s.msg.value, str) else f'L{s.lineno}'
+            self.oblige(self.cfg.obl_name(self, 'assert', label), 'assert', c)
             return
         if not self.branch(c):
             raise PyExc(AssertionError())
@@ -1002,6 +1010,8 @@ class Path:
             if step:
                 step()
             spec.check_inv(self, 'inv-preserved')
+            if getattr(spec, 'mods', None) is not None:
+                spec.check_loop_frame(self)
             if v0 is not None:
                 v1 = spec.variant(self)
                 self.oblige(spec.name('variant-decreases'), 'variant', self.compare_op(ast.Lt(), v1, v0))
@@ -1027,6 +1037,11 @@ class Path:
         spec = self.cfg.loop_spec(self, self.func_stack[-1], self.loop_label(s))
         if spec is None:
             raise Unsupported(f'for loop over symbolic iterable without invariant at {self.cur_loc}')
+        if isinstance(it, Unknown) and self.skeleton:
+            # skeleton profile: an uninterpreted iterable yields any number of uninterpreted items
+            self.abstraction_used = True
+            self.cut_loop(s, spec, lambda: Unknown('iter'), lambda: self.assign(s.target, Unknown('item')), ())
+            return
         fr = self.scope[0]
         if isinstance(it, SymRange):
             itname = '_it'
@@ -1055,6 +1070,23 @@ class Path:
 
             def pre_body():
                 self.assign(s.target, self.subscript(seq, self.lookup(itname)))
+
+            def stepf():
+                self.store_name(itname, self.binop(ast.Add(), self.lookup(itname), 1))
+
+            self.cut_loop(s, spec, test, pre_body, (itname,), stepf)
+            return
+        if isinstance(it, SymZip):
+            # zip of symbolic sequences: position _i runs over 0 .. min(len) - 1, the target is the tuple of the _i-th elements
+            itname = '_i'
+            self.store_name(itname, 0)
+            lens = [self.length(q) for q in it.seqs]
+
+            def test():
+                return self.bool_and([self.compare_op(ast.Lt(), self.lookup(itname), ln) for ln in lens])
+
+            def pre_body():
+                self.assign(s.target, tuple(self.subscript(q, self.lookup(itname)) for q in it.seqs))
 
             def stepf():
                 self.store_name(itname, self.binop(ast.Add(), self.lookup(itname), 1))
@@ -1165,6 +1197,8 @@ class Path:
                     return self.alloc(LObj(list(self.ev_Tuple(n))))
                 v = self.eval(e)
                 out.append(v)
+                if self.prog_vals is not None and not isinstance(v, Ref):
+                    self.prog_vals.append(v)
                 if isinstance(v, Sym) and v.k == 'bool':
                     self.pc.append(v.t)
                     self.prog_temps.append(v.t)
@@ -1190,12 +1224,24 @@ class Path:
 
     def ev_JoinedStr(self, n):
         # f-strings only feed log lines / exception messages
+        # (contract kwarg fstrings='eval': a replacement field without conversion/format spec whose value
+        # is a concrete str/int is formatted exactly -- needed where a name is computed for getattr dispatch)
+        evaluate = getattr(getattr(self.cfg, 'top', None), 'extra', {}).get('fstrings') == 'eval'
         parts = []
+        opaque = False
         for v in n.values:
             if isinstance(v, ast.Constant):
                 parts.append(v.value)
+            elif evaluate:
+                x = self.eval(v.value)
+                if v.conversion == -1 and v.format_spec is None and type(x) in (str, int):
+                    parts.append(str(x))
+                else:
+                    opaque = True
             else:
                 return OpaqueStr()
+        if opaque:
+            return OpaqueStr()
         return ''.join(parts)
 
     def ev_Attribute(self, n):
@@ -1719,6 +1765,8 @@ class Path:
             if isinstance(o, BAObj):
                 return self.length(o.val)
             if isinstance(o, LObj):
+                if o.flavor == 'set' and o.items:
+                    raise Unsupported('len of a set with symbolic members')
                 return len(o.items) if o.items is not None else self.length(o.sym)
             if isinstance(o, DObj):
                 return len(o.items)
@@ -1788,6 +1836,13 @@ class SliceV:
 class SymRange:
     def __init__(self, start, stop, step):
         self.start, self.stop, self.step = start, stop, step
+
+
+class SymZip:
+    """zip(...) of symbolic sequences; consumed by st_For only"""
+
+    def __init__(self, seqs):
+        self.seqs = seqs
 
 
 class ConcIter:
